@@ -533,7 +533,8 @@ class ApplyTemplates(Transformer_InPlace):
     def template_usage(self, c):
         name = c[0].name
         args = c[1:]
-        result_name = "%s{%s}" % (name, ",".join(a.name for a in args))
+        # A filtered terminal (an anonymous literal) and a kept one of the same name make different instances
+        result_name = "%s{%s}" % (name, ",".join(a.name + ('~' if isinstance(a, Terminal) and a.filter_out else '') for a in args))
         if result_name not in self.created_templates:
             self.created_templates.add(result_name)
             (_n, params, tree, options) ,= (t for t in self.rule_defs if t[0] == name)
